@@ -171,7 +171,11 @@ impl C07 {
         let addrs: Vec<SocketAddr> = (0..n_addrs).map(server_addr).collect();
         let token = ConnectToken::generate(Duration::from_secs(100), PROTO, 30, 5, 5, addrs, None, &key(1)).expect("valid token");
         let mut w = Vec::new();
-        token.write(&mut w).unwrap();
+        token.write(&mut w).map_err(|e| Fail::new("token_write", e.to_string()))?;
+        // the smallest serialized token (one IPv4 address) has 1172 bytes; the edits below address fields at their fixed offsets
+        if w.len() < 1172 {
+            return Err(Fail::new("token_write", format!("ConnectToken::write produced {} bytes for a token with {} address(es)", w.len(), token.server_addresses.iter().flatten().count())));
+        }
         const OFF_CREATE: usize = 8 + 13 + 8;
         const OFF_EXPIRE: usize = OFF_CREATE + 8;
         const OFF_TIMEOUT: usize = OFF_EXPIRE + 8 + 24 + 1024;
